@@ -7,6 +7,10 @@
       - the closer (the goroutine that called [Close]),
       - the canceller (whoever cancels the context handed to [Subscribe]).
 
+    Each of the first two may make any number of calls, one after the other
+    (Subscribe ... Subscribe ..., Close ... Close ...), a Close overlapping a
+    Subscribe at any point; on a bare client later calls are sequential.
+
     Atomic steps are the critical sections of [p.mu] / [c.mu], single channel
     operations and single calls into the transport or into the application's
     callbacks.  [CacheClient] (client/cache.go) only wraps the handler and is
@@ -146,37 +150,41 @@ Record st := mk {
   x_pc : xpc;
   r_closed : bool; r_hascancel : bool; r_subdone : sdone;
   ctx_r : bool; ctx_p : bool; ncancel : nat; nsleep : nat;
-  b_closed : bool; b_impl : oimpl; b_mu : bool }.
+  b_closed : bool; b_impl : oimpl; b_mu : bool;
+  c_done : bool   (* ghost: reconnect -- some Close call has returned; bare client -- a Close
+                     call returned nil since the current Subscribe call was made *) }.
 
 Definition init : st :=
-  mk SIdle 0 false false false CIdle false false XIdle false false SDNil false false 0 0 false NoImpl false.
+  mk SIdle 0 false false false CIdle false false XIdle false false SDNil false false 0 0 false NoImpl false false.
 
 Definition cancelled (s : st) : bool := ctx_r s || ctx_p s.
 
 (** field updates *)
-Definition set_spc v s := let '(mk a b c d e f g h i j k l m n o p q r t) := s in mk v b c d e f g h i j k l m n o p q r t.
-Definition set_att v s := let '(mk a b c d e f g h i j k l m n o p q r t) := s in mk a v c d e f g h i j k l m n o p q r t.
-Definition set_conn v s := let '(mk a b c d e f g h i j k l m n o p q r t) := s in mk a b v d e f g h i j k l m n o p q r t.
-Definition set_curcl v s := let '(mk a b c d e f g h i j k l m n o p q r t) := s in mk a b c v e f g h i j k l m n o p q r t.
-Definition set_err v s := let '(mk a b c d e f g h i j k l m n o p q r t) := s in mk a b c d v f g h i j k l m n o p q r t.
-Definition set_cpc v s := let '(mk a b c d e f g h i j k l m n o p q r t) := s in mk a b c d e v g h i j k l m n o p q r t.
-Definition set_cwait v s := let '(mk a b c d e f g h i j k l m n o p q r t) := s in mk a b c d e f v h i j k l m n o p q r t.
-Definition set_cok v s := let '(mk a b c d e f g h i j k l m n o p q r t) := s in mk a b c d e f g v i j k l m n o p q r t.
-Definition set_xpc v s := let '(mk a b c d e f g h i j k l m n o p q r t) := s in mk a b c d e f g h v j k l m n o p q r t.
-Definition set_rclosed v s := let '(mk a b c d e f g h i j k l m n o p q r t) := s in mk a b c d e f g h i v k l m n o p q r t.
-Definition set_hascancel v s := let '(mk a b c d e f g h i j k l m n o p q r t) := s in mk a b c d e f g h i j v l m n o p q r t.
-Definition set_subdone v s := let '(mk a b c d e f g h i j k l m n o p q r t) := s in mk a b c d e f g h i j k v m n o p q r t.
-Definition set_ctxr v s := let '(mk a b c d e f g h i j k l m n o p q r t) := s in mk a b c d e f g h i j k l v n o p q r t.
-Definition set_ctxp v s := let '(mk a b c d e f g h i j k l m n o p q r t) := s in mk a b c d e f g h i j k l m v o p q r t.
-Definition set_ncancel v s := let '(mk a b c d e f g h i j k l m n o p q r t) := s in mk a b c d e f g h i j k l m n v p q r t.
-Definition set_nsleep v s := let '(mk a b c d e f g h i j k l m n o p q r t) := s in mk a b c d e f g h i j k l m n o v q r t.
-Definition set_bclosed v s := let '(mk a b c d e f g h i j k l m n o p q r t) := s in mk a b c d e f g h i j k l m n o p v r t.
-Definition set_bimpl v s := let '(mk a b c d e f g h i j k l m n o p q r t) := s in mk a b c d e f g h i j k l m n o p q v t.
-Definition set_bmu v s := let '(mk a b c d e f g h i j k l m n o p q r t) := s in mk a b c d e f g h i j k l m n o p q r v.
+Definition set_spc v s := let '(mk a b c d e f g h i j k l m n o p q r t u) := s in mk v b c d e f g h i j k l m n o p q r t u.
+Definition set_att v s := let '(mk a b c d e f g h i j k l m n o p q r t u) := s in mk a v c d e f g h i j k l m n o p q r t u.
+Definition set_conn v s := let '(mk a b c d e f g h i j k l m n o p q r t u) := s in mk a b v d e f g h i j k l m n o p q r t u.
+Definition set_curcl v s := let '(mk a b c d e f g h i j k l m n o p q r t u) := s in mk a b c v e f g h i j k l m n o p q r t u.
+Definition set_err v s := let '(mk a b c d e f g h i j k l m n o p q r t u) := s in mk a b c d v f g h i j k l m n o p q r t u.
+Definition set_cpc v s := let '(mk a b c d e f g h i j k l m n o p q r t u) := s in mk a b c d e v g h i j k l m n o p q r t u.
+Definition set_cwait v s := let '(mk a b c d e f g h i j k l m n o p q r t u) := s in mk a b c d e f v h i j k l m n o p q r t u.
+Definition set_cok v s := let '(mk a b c d e f g h i j k l m n o p q r t u) := s in mk a b c d e f g v i j k l m n o p q r t u.
+Definition set_xpc v s := let '(mk a b c d e f g h i j k l m n o p q r t u) := s in mk a b c d e f g h v j k l m n o p q r t u.
+Definition set_rclosed v s := let '(mk a b c d e f g h i j k l m n o p q r t u) := s in mk a b c d e f g h i v k l m n o p q r t u.
+Definition set_hascancel v s := let '(mk a b c d e f g h i j k l m n o p q r t u) := s in mk a b c d e f g h i j v l m n o p q r t u.
+Definition set_subdone v s := let '(mk a b c d e f g h i j k l m n o p q r t u) := s in mk a b c d e f g h i j k v m n o p q r t u.
+Definition set_ctxr v s := let '(mk a b c d e f g h i j k l m n o p q r t u) := s in mk a b c d e f g h i j k l v n o p q r t u.
+Definition set_ctxp v s := let '(mk a b c d e f g h i j k l m n o p q r t u) := s in mk a b c d e f g h i j k l m v o p q r t u.
+Definition set_ncancel v s := let '(mk a b c d e f g h i j k l m n o p q r t u) := s in mk a b c d e f g h i j k l m n v p q r t u.
+Definition set_nsleep v s := let '(mk a b c d e f g h i j k l m n o p q r t u) := s in mk a b c d e f g h i j k l m n o v q r t u.
+Definition set_bclosed v s := let '(mk a b c d e f g h i j k l m n o p q r t u) := s in mk a b c d e f g h i j k l m n o p v r t u.
+Definition set_bimpl v s := let '(mk a b c d e f g h i j k l m n o p q r t u) := s in mk a b c d e f g h i j k l m n o p q v t u.
+Definition set_bmu v s := let '(mk a b c d e f g h i j k l m n o p q r t u) := s in mk a b c d e f g h i j k l m n o p q r v u.
+Definition set_cdone v s := let '(mk a b c d e f g h i j k l m n o p q r t u) := s in mk a b c d e f g h i j k l m n o p q r t v.
 
-(** [p.cancel()]: cancels the derived context; the ghost counter [ncancel]
-    counts the calls. *)
-Definition do_cancel (s : st) : st := set_ncancel (S (ncancel s)) (set_ctxr true s).
+(** [p.cancel()]: cancels the derived context (idempotent); the ghost counter
+    [ncancel] counts the calls that actually cancelled the current context. *)
+Definition do_cancel (s : st) : st :=
+  if ctx_r s then s else set_ncancel (S (ncancel s)) (set_ctxr true s).
 
 Section Model.
   Variable reconnect : bool.   (* ReconnectClient around the BaseClient, or the BaseClient alone *)
@@ -195,7 +203,8 @@ Section Model.
     | SInit =>
         (* initDone, under p.mu: subscribeDone = make(chan); ctx, p.cancel = WithCancel(ctx);
            if p.closed { p.cancel() } *)
-        let s1 := set_hascancel true (set_subdone SDOpen s) in
+        (* a fresh context and cancel function for this call *)
+        let s1 := set_hascancel true (set_subdone SDOpen (set_ncancel 0 (set_ctxr false s))) in
         [(None, set_spc SFactory (if r_closed s then do_cancel s1 else s1))]
     | SFactory => [(Some (EFactory k), set_spc SFacChk s)]
     | SFacChk =>
@@ -250,13 +259,27 @@ Section Model.
     | SReset => [(Some EReset, set_spc SFactory (set_att (S k) s))]
     | SDone => [(None, set_spc (SRet RCanceled) (set_subdone SDClosed s))]
     | SRet r => [(Some (ESubRet r), set_spc SFin s)]
-    | SFin => []
+    | SFin =>
+        (* the application calls Subscribe again on the same client (calls on one
+           client are sequential per kind; transport attempts keep their numbering).
+           Bare client: not while a Close call is still in progress. *)
+        if reconnect
+        then [(Some ESubCall, set_spc SInit (set_att (S k) s))]
+        else match c_pc s with
+             | CIdle | CFin => [(Some ESubCall, set_spc SFactory (set_att (S k) (set_cdone false s)))]
+             | _ => []
+             end
     end.
 
   (** ** the closer *)
   Definition cstep (s : st) : list (option ev * st) :=
     match c_pc s with
-    | CIdle => [(Some ECloseCall, set_cpc (if reconnect then CLock else CBase) s)]
+    | CIdle | CFin =>
+        (* Close may be called any number of times.  Bare client: during the
+           first Subscribe call at any moment, later only between Subscribe calls. *)
+        if reconnect then [(Some ECloseCall, set_cpc CLock s)]
+        else if Nat.eqb (s_att s) 0 || match s_pc s with SFin => true | _ => false end
+             then [(Some ECloseCall, set_cpc CBase s)] else []
     | CLock =>
         (* under p.mu: if p.cancel != nil { p.cancel() }; p.closed = true; return p.subscribeDone *)
         let s1 := if r_hascancel s then do_cancel s else s in
@@ -279,8 +302,8 @@ Section Model.
         if c_wait s
         then match r_subdone s with SDClosed => [(None, set_cpc CRet s)] | _ => [] end
         else [(None, set_cpc CRet s)]
-    | CRet => [(Some (ECloseRet (c_ok s)), set_cpc CFin s)]
-    | CFin => []
+    | CRet => [(Some (ECloseRet (c_ok s)),
+                set_cpc CFin (set_cdone (if reconnect then true else c_ok s) s))]
     end.
 
   (** ** the canceller of the caller's context *)
